@@ -168,3 +168,313 @@ def to_spec_literal(t, v):
     if name == 'Timestamp':
         return v.strftime(M.pparams(t)['format'])
     return v
+
+
+# =======================================================================================
+# composite abstract values
+#
+#   primitive          -> python value (int/float/str/bytes/bool/datetime/None)
+#   nullable           -> None | inner
+#   list               -> [abstract, ...]          map -> {str: abstract}
+#   struct             -> ('struct', (ns, name), {field: abstract})   (only *set* fields)
+#   union              -> ('union', (ns, name), tag, abstract | None)
+
+class Costs:
+    """Minimal nesting cost of a value of each user type (fixpoint); guarantees that value
+    generation terminates on recursive types."""
+
+    INF = 10 ** 6
+
+    def __init__(self, idx):
+        self.idx = idx
+        self.cost = {}
+        changed = True
+        for n, d in idx.types():
+            self.cost[(n, d['name'])] = self.INF
+        while changed:
+            changed = False
+            for n, d in idx.types():
+                c = self._type_cost(n, d)
+                if c < self.cost[(n, d['name'])]:
+                    self.cost[(n, d['name'])] = c
+                    changed = True
+
+    def texpr(self, t):
+        k = t[0]
+        if k in ('prim', 'nullable', 'map'):
+            return 0
+        if k == 'list':
+            return 0 if not t[2] else 1 + self.texpr(t[1])
+        if k == 'alias':
+            return self.texpr(self.idx.get(t[1], t[2])['type'])
+        d = self.idx.get(t[1], t[2])
+        if d['k'] == 'struct' and d.get('subtypes'):
+            return min([self.cost[(t[1], kid)] for _, kid in d['subtypes']['items']] + [self.INF])
+        return self.cost[(t[1], t[2])]
+
+    def _type_cost(self, n, d):
+        if d['k'] == 'struct':
+            c = 0
+            for _, _, f in self.idx.struct_all_fields(n, d):
+                if not self.idx.is_optional(f):
+                    c = max(c, self.texpr(f['type']))
+            return min(self.INF, 1 + c)
+        best = self.INF
+        for _, _, t in self.idx.union_all_tags(n, d, with_other=False):
+            best = min(best, 0 if t['type'] is None else self.texpr(t['type']))
+        return min(self.INF, 1 + best)
+
+
+def concrete_structs(idx, ns, d):
+    """Classes whose instances are encodable values of struct type (ns, d): the struct itself,
+    or the listed leaves when it enumerates subtypes."""
+    if d.get('subtypes'):
+        return [(ns, idx.get(ns, kid)) for _, kid in d['subtypes']['items']]
+    return [(ns, d)]
+
+
+@st.composite
+def value_for(draw, idx, costs, t, fuel=3, wild=False, omit_callers=frozenset()):
+    k = t[0]
+    if k == 'prim':
+        s = prim_value_strategy(t, wild=wild)
+        return draw(s)
+    if k == 'alias':
+        return draw(value_for(idx, costs, idx.get(t[1], t[2])['type'], fuel, wild, omit_callers))
+    if k == 'nullable':
+        if fuel <= 0 or draw(st.integers(0, 3)) == 0:
+            return None
+        return draw(value_for(idx, costs, t[1], fuel, wild, omit_callers))
+    if k == 'list':
+        lo = t[2] or 0
+        hi = t[3] if t[3] is not None else lo + 3
+        if fuel <= 0:
+            n = lo
+        else:
+            n = draw(st.sampled_from(sorted({lo, hi, min(hi, lo + 1)})))
+        return [draw(value_for(idx, costs, t[1], fuel - 1, wild, omit_callers)) for _ in range(n)]
+    if k == 'map':
+        n = 0 if fuel <= 0 else draw(st.integers(0, 2))
+        out = {}
+        for _ in range(n):
+            key = draw(value_for(idx, costs, t[1], 0, wild))
+            out[key] = draw(value_for(idx, costs, t[2], fuel - 1, wild, omit_callers))
+        return out
+    d = idx.get(t[1], t[2])
+    if d['k'] == 'struct':
+        cands = concrete_structs(idx, t[1], d)
+        cands = sorted(cands, key=lambda c: costs.cost[(c[0], c[1]['name'])])
+        if fuel <= 0:
+            cn, cd = cands[0]
+        else:
+            cn, cd = draw(st.sampled_from(cands))
+        fields = {}
+        for _, _, f in idx.struct_all_fields(cn, cd):
+            if omitted_for(idx, f, omit_callers):
+                continue
+            opt = idx.is_optional(f)
+            if opt and (fuel <= 0 or draw(st.booleans())):
+                continue
+            v = draw(value_for(idx, costs, f['type'], fuel - 1, wild, omit_callers))
+            if v is None and idx.is_nullable(f['type']):
+                continue          # setting a nullable field to None leaves it unset
+            fields[f['name']] = v
+        return ('struct', (cn, cd['name']), fields)
+    tags = [tg for _, _, tg in idx.union_all_tags(t[1], d, with_other=False)
+            if not omitted_for(idx, tg, omit_callers)]
+    if not tags:
+        return ('union', (t[1], t[2]), None, None)
+    if fuel <= 0:
+        tags = sorted(tags, key=lambda tg: 0 if tg['type'] is None else costs.texpr(tg['type']))[:1]
+    tg = draw(st.sampled_from(tags))
+    if tg['type'] is None:
+        return ('union', (t[1], t[2]), tg['name'], None)
+    return ('union', (t[1], t[2]), tg['name'],
+            draw(value_for(idx, costs, tg['type'], fuel - 1, wild, omit_callers)))
+
+
+def omitted_for(idx, f, callers):
+    """Is the member annotated Omitted(c) with c not in `callers` (None = ignore omission)?"""
+    if callers is None:
+        return False
+    for a in f.get('annots') or []:
+        d = idx.get(a[0], a[1])
+        if d['atype'][1] == 'Omitted' and d['args'][0] not in callers:
+            return True
+    return False
+
+
+_NOSLOT = object()
+
+
+def materialize(pkg, idx, t, v):
+    """Abstract value -> instance of the generated classes / plain Python value."""
+    k = t[0]
+    if k == 'alias':
+        return materialize(pkg, idx, idx.get(t[1], t[2])['type'], v)
+    if k == 'nullable':
+        return None if v is None else materialize(pkg, idx, t[1], v)
+    if k == 'prim':
+        return v
+    if k == 'list':
+        return [materialize(pkg, idx, t[1], x) for x in v]
+    if k == 'map':
+        return {key: materialize(pkg, idx, t[2], x) for key, x in v.items()}
+    if v[0] == 'struct':
+        ns, name = v[1]
+        d = idx.get(ns, name)
+        obj = pkg.cls(ns, name)()
+        ftypes = {f['name']: f['type'] for _, _, f in idx.struct_all_fields(ns, d)}
+        for fname, fv in v[2].items():
+            setattr(obj, fname, materialize(pkg, idx, ftypes[fname], fv))
+        return obj
+    ns, name = v[1]
+    d = idx.get(ns, name)
+    cls = pkg.cls(ns, name)
+    tag = v[2]
+    tg = [x for _, _, x in idx.union_all_tags(ns, d) if x['name'] == tag][0]
+    if tg['type'] is None:
+        return getattr(cls, tag)
+    return getattr(cls, tag)(materialize(pkg, idx, tg['type'], v[3]))
+
+
+def same(idx, t, obj, v, path='$'):
+    """Independent structural comparison of a decoded object with an abstract value; returns
+    None when equal, else a description of the first difference."""
+    k = t[0]
+    if k == 'alias':
+        return same(idx, idx.get(t[1], t[2])['type'], obj, v, path)
+    if k == 'nullable':
+        if v is None:
+            return None if obj is None else '%s: expected None, got %r' % (path, obj)
+        if obj is None:
+            return '%s: got None, expected a value' % path
+        return same(idx, t[1], obj, v, path)
+    if k == 'prim':
+        if t[1] in M.FLOATS:
+            ok = isinstance(obj, (int, float)) and not isinstance(obj, bool) and float(obj) == float(v)
+        elif t[1] in M.INTS:
+            ok = isinstance(obj, int) and obj == v
+        else:
+            ok = type(obj) is type(v) and obj == v
+        return None if ok else '%s: expected %r, got %r' % (path, v, obj)
+    if k == 'list':
+        if not isinstance(obj, (list, tuple)) or len(obj) != len(v):
+            return '%s: list mismatch %r vs %r' % (path, obj, v)
+        for i, (o, x) in enumerate(zip(obj, v)):
+            r = same(idx, t[1], o, x, '%s[%d]' % (path, i))
+            if r:
+                return r
+        return None
+    if k == 'map':
+        if not isinstance(obj, dict) or set(obj) != set(v):
+            return '%s: map keys mismatch %r vs %r' % (path, obj, v)
+        for key in v:
+            r = same(idx, t[2], obj[key], v[key], '%s[%r]' % (path, key))
+            if r:
+                return r
+        return None
+    if v[0] == 'struct':
+        ns, name = v[1]
+        d = idx.get(ns, name)
+        if type(obj).__name__ != name:
+            return '%s: expected instance of %s, got %s' % (path, name, type(obj).__name__)
+        for _, _, f in idx.struct_all_fields(ns, d):
+            fname = f['name']
+            raw = getattr(obj, '_%s_value' % fname, _NOSLOT)
+            is_set = raw is not _NOSLOT and repr(raw) != 'NOT_SET'
+            if fname in v[2]:
+                if not is_set:
+                    return '%s.%s: expected set, is unset' % (path, fname)
+                r = same(idx, f['type'], raw, v[2][fname], '%s.%s' % (path, fname))
+                if r:
+                    return r
+            elif is_set:
+                return '%s.%s: expected unset, got %r' % (path, fname, raw)
+        return None
+    ns, name = v[1]
+    d = idx.get(ns, name)
+    if not hasattr(obj, '_tag'):
+        return '%s: expected union instance, got %r' % (path, obj)
+    if obj._tag != v[2]:
+        return '%s: expected tag %r, got %r' % (path, v[2], obj._tag)
+    tg = [x for _, _, x in idx.union_all_tags(ns, d) if x['name'] == v[2]][0]
+    if tg['type'] is None:
+        return None if obj._value is None else '%s: void tag with value %r' % (path, obj._value)
+    return same(idx, tg['type'], obj._value, v[3], '%s<%s>' % (path, v[2]))
+
+
+def value_classes(idx, t, v, depth=0):
+    """Shape classes a value exercises (for non-triviality / histograms)."""
+    out = set()
+    k = t[0]
+    if k == 'alias':
+        out.add('via_alias')
+        return out | value_classes(idx, idx.get(t[1], t[2])['type'], v, depth)
+    if k == 'nullable':
+        out.add('nullable_none' if v is None else 'nullable_set')
+        return out if v is None else out | value_classes(idx, t[1], v, depth)
+    if k == 'prim':
+        name = t[1]
+        if name == 'Bytes':
+            out.add('bytes')
+        elif name == 'Timestamp':
+            out.add('timestamp')
+        elif name in M.INTS:
+            lo, hi = M.INT_RANGES[name]
+            p = M.pparams(t)
+            if v in (lo, hi, p.get('min_value'), p.get('max_value')) or abs(v) > 2**53:
+                out.add('boundary_int')
+        elif name == 'String':
+            if any(ord(c) > 127 for c in v):
+                out.add('unicode')
+            p = M.pparams(t)
+            if len(v) in (p.get('min_length'), p.get('max_length')):
+                out.add('boundary_len')
+        return out
+    if k == 'list':
+        if depth >= 1:
+            out.add('container_depth2')
+        for x in v:
+            out |= value_classes(idx, t[1], x, depth + 1)
+        return out
+    if k == 'map':
+        if depth >= 1:
+            out.add('container_depth2')
+        if idx.is_nullable(t[2]):
+            out.add('map_of_nullable')
+        for x in v.values():
+            out |= value_classes(idx, t[2], x, depth + 1)
+        return out
+    if v[0] == 'struct':
+        ns, name = v[1]
+        d = idx.get(ns, name)
+        if (ns, name) != (t[1], t[2]):
+            out.add('enumerated_subtype')
+        if d.get('parent'):
+            out.add('inherited_fields')
+        for _, _, f in idx.struct_all_fields(ns, d):
+            if f['name'] in v[2]:
+                if idx.is_optional(f):
+                    out.add('optional_set')
+                out |= value_classes(idx, f['type'], v[2][f['name']], depth)
+            elif idx.is_optional(f):
+                out.add('optional_unset')
+        return out
+    ns, name = v[1]
+    d = idx.get(ns, name)
+    if v[2] is None:
+        return out
+    owner, tg = [(u, x) for _, u, x in idx.union_all_tags(ns, d) if x['name'] == v[2]][0]
+    if owner is not d:
+        out.add('inherited_tag')
+    if tg['type'] is None:
+        out.add('void_tag')
+        return out
+    b = idx.base(tg['type'])
+    if idx.is_nullable(tg['type']):
+        out.add('nullable_tag')
+    if b[0] == 'ref':
+        kd = idx.get(b[1], b[2])
+        out.add('struct_tag' if kd['k'] == 'struct' else 'union_of_union')
+    return out | value_classes(idx, tg['type'], v[3], depth)
